@@ -1,3 +1,346 @@
-import Model.Fixed
+import Lemmas.FixedConv
+import Lemmas.FixedRat
+/-! # C03 — fixed-point arithmetic equals exact decimal arithmetic truncated toward zero
+
+Property theorems only.  The executable model is `Model/Fixed.lean` (`Fixed.F64.*` = `f64.Int[T]` on wrapping `int64`
+semantics, `Fixed.F128.*` = `f128.Int[T]` on `num.Int128` semantics); the very same definitions are run against the Go
+code by `Driver/C03.lean` on every check.  A fixed-point value is `raw / m` with `m = 10^D` the multiplier of the
+configuration, so every clause is stated on the raw scaled integers:
+  * `Mul`: raw = `(a·b) tdiv m`  — the exact product `(a/m)(b/m)` truncated toward zero to D places,
+  * `Div`: raw = `(a·m) tdiv b`  — the exact quotient `(a/m)/(b/m)` truncated toward zero to D places,
+  * `Mod`: raw = `a − b·(a tdiv b)` — `a − b·trunc(a/b)`,
+  * `Trunc/Ceil/Round`: multiples of `m` (whole numbers) toward zero / toward +∞ / nearest, halves away from zero.
+`Mult m` says that `m` is a multiplier of the regenerated configuration table `Facts.fixedConfigs` (from which the
+driver takes it, `driver_multiplier_from_table`).  `fits64` / `fits128` are the explicit representability hypotheses of
+the property (exact result and, for Mul/Div/Mod, the intermediate product). -/
 namespace C03
+open Fixed Fixed.Spec Fixed.Rat
+
+/-! ## configurations -/
+
+/-- regenerated tie for `config.go`: every `(places, multiplier)` pair satisfies `multiplier = 10^places` -/
+theorem multiplier_table : ∀ p ∈ Facts.fixedConfigs, p.2 = 10 ^ p.1 := by decide
+
+/-- there are exactly the 16 configurations D1..D16, with 1..16 places, in this order -/
+theorem config_places : Facts.fixedConfigs.map (·.1) = [1, 2, 3, 4, 5, 6, 7, 8, 9, 10, 11, 12, 13, 14, 15, 16] := by
+  decide
+
+theorem config_count : Facts.fixedConfigs.length = 16 := by decide
+
+/-- the multiplier the driver (and `Multiplier[T]()` / `MaxDecimalDigits[T]()` in the comparison) uses for `Dk` is
+    the k-th row of that table -/
+theorem driver_multiplier_from_table (k : Nat) (m : Int) (h : mult? k = some m) : Mult m ∧ places? k = some k := by
+  refine ⟨mult?_Mult h, ?_⟩
+  unfold mult? at h
+  unfold places?
+  split at h
+  · cases h
+  · rename_i hk
+    rw [if_neg hk]
+    have hlen : k - 1 < 16 := by
+      cases hq : Facts.fixedConfigs[k - 1]? with
+      | none => rw [hq] at h; cases h
+      | some p =>
+        have := (List.getElem?_eq_some_iff.mp hq).1
+        simpa [config_count] using this
+    have : ∀ j : Fin 16, (Facts.fixedConfigs[j.val]?).map (·.1) = some (j.val + 1) := by decide
+    have h2 := this ⟨k - 1, hlen⟩
+    simp only at h2
+    rw [h2]; congr 1; omega
+
+/-! ## Add / Sub are exact -/
+
+/-- f64 `Add` is exact when the sum is representable -/
+theorem f64_add_exact (a b : Int) (h : fits64 (a + b)) : F64.add a b = a + b := F64.add_exact h
+/-- f64 `Sub` is exact when the difference is representable -/
+theorem f64_sub_exact (a b : Int) (h : fits64 (a - b)) : F64.sub a b = a - b := F64.sub_exact h
+/-- f128 `Add` is exact when the sum is representable -/
+theorem f128_add_exact (a b : Int) (h : fits128 (a + b)) : F128.add a b = a + b := F128.add_exact h
+/-- f128 `Sub` is exact when the difference is representable -/
+theorem f128_sub_exact (a b : Int) (h : fits128 (a - b)) : F128.sub a b = a - b := F128.sub_exact h
+
+/-! ## Mul / Div / Mod -/
+
+/-- f64 `Mul` = exact product truncated toward zero to D places (intermediate product representable) -/
+theorem f64_mul_spec (m a b : Int) (hm : Mult m) (hp : fits64 (a * b)) : F64.mul m a b = (a * b).tdiv m :=
+  F64.mul_eq hm hp
+/-- f128 `Mul` -/
+theorem f128_mul_spec (m a b : Int) (hm : Mult m) (hp : fits128 (a * b)) : F128.mul m a b = (a * b).tdiv m :=
+  F128.mul_eq hm hp
+
+/-- f64 `Div` = exact quotient truncated toward zero to D places (`b ≠ 0`; intermediate `a·m` and the quotient
+    representable — the latter only excludes `Min / -1`-like cases) -/
+theorem f64_div_spec (m a b : Int) (hb : b ≠ 0) (hp : fits64 (a * m)) (hq : fits64 ((a * m).tdiv b)) :
+    F64.div m a b = some ((a * m).tdiv b) := F64.div_eq hb hp hq
+/-- f128 `Div` -/
+theorem f128_div_spec (m a b : Int) (hbf : fits128 b) (hb : b ≠ 0) (hp : fits128 (a * m))
+    (hq : fits128 ((a * m).tdiv b)) : F128.div m a b = some ((a * m).tdiv b) := F128.div_eq hbf hb hp hq
+
+/-- division by zero is a Go panic (`none`) in both implementations — never a wrong number -/
+theorem div_zero_panics (m a : Int) : F64.div m a 0 = none ∧ F128.div m a 0 = none ∧
+    F64.mod m a 0 = none ∧ F128.mod m a 0 = none := by
+  simp [F64.div, F128.div, F64.mod, F128.mod]
+
+/-- f64 `Mod` = `a − b·trunc(a/b)` (the truncated remainder, sign of the dividend); the inner product
+    `b·Trunc(a/b)` is shown representable from the hypotheses, so only those of `Div` are needed -/
+theorem f64_mod_spec (m a b : Int) (hm : Mult m) (ha : fits64 a) (hb : b ≠ 0) (hp : fits64 (a * m))
+    (hq : fits64 ((a * m).tdiv b)) : F64.mod m a b = some (a - b * a.tdiv b) := by
+  rw [F64.mod_eq hm ha hb hp hq]
+  have := Int.tmod_add_tdiv_mul a b
+  have e : a.tdiv b * b = b * a.tdiv b := Int.mul_comm _ _
+  congr 1; omega
+/-- f128 `Mod` -/
+theorem f128_mod_spec (m a b : Int) (hm : Mult m) (ha : fits128 a) (hbf : fits128 b) (hb : b ≠ 0)
+    (hp : fits128 (a * m)) (hq : fits128 ((a * m).tdiv b)) : F128.mod m a b = some (a - b * a.tdiv b) := by
+  rw [F128.mod_eq hm ha hbf hb hp hq]
+  have := Int.tmod_add_tdiv_mul a b
+  have e : a.tdiv b * b = b * a.tdiv b := Int.mul_comm _ _
+  congr 1; omega
+
+/-! ## Trunc / Ceil / Round -/
+
+/-- f64 `Trunc`: a whole number (multiple of `m`), less than one unit from `a`, between 0 and `a` (toward zero) -/
+theorem f64_trunc_spec (m a : Int) (hm : Mult m) (ha : fits64 a) :
+    (∃ k : Int, F64.trunc m a = k * m) ∧ |a - F64.trunc m a| < m ∧
+    (0 ≤ a → 0 ≤ F64.trunc m a ∧ F64.trunc m a ≤ a) ∧ (a ≤ 0 → a ≤ F64.trunc m a ∧ F64.trunc m a ≤ 0) := by
+  rw [F64.trunc_eq hm ha]; exact trunc_spec m a hm.pos
+/-- f128 `Trunc` -/
+theorem f128_trunc_spec (m a : Int) (hm : Mult m) (ha : fits128 a) :
+    (∃ k : Int, F128.trunc m a = k * m) ∧ |a - F128.trunc m a| < m ∧
+    (0 ≤ a → 0 ≤ F128.trunc m a ∧ F128.trunc m a ≤ a) ∧ (a ≤ 0 → a ≤ F128.trunc m a ∧ F128.trunc m a ≤ 0) := by
+  rw [F128.trunc_eq hm ha]; exact trunc_spec m a hm.pos
+
+/-- f64 `Ceil`: the least whole number ≥ `a` (toward +∞), when that number is representable -/
+theorem f64_ceil_spec (m a : Int) (hm : Mult m) (ha : fits64 a) (hr : fits64 (fxCeil m a)) :
+    (∃ k : Int, F64.ceil m a = k * m) ∧ a ≤ F64.ceil m a ∧ F64.ceil m a < a + m := by
+  rw [F64.ceil_eq hm ha hr]; exact ceil_spec m a hm.pos
+/-- f128 `Ceil` -/
+theorem f128_ceil_spec (m a : Int) (hm : Mult m) (ha : fits128 a) (hr : fits128 (fxCeil m a)) :
+    (∃ k : Int, F128.ceil m a = k * m) ∧ a ≤ F128.ceil m a ∧ F128.ceil m a < a + m := by
+  rw [F128.ceil_eq hm ha hr]; exact ceil_spec m a hm.pos
+
+/-- f64 `Round`: a whole number at distance ≤ 1/2, and on an exact half the one of larger magnitude (halves away
+    from zero, both signs), when that number is representable -/
+theorem f64_round_spec (m a : Int) (hm : Mult m) (ha : fits64 a) (hr : fits64 (fxRound m a)) :
+    (∃ k : Int, F64.round m a = k * m) ∧ 2 * |a - F64.round m a| ≤ m ∧
+    (2 * |a - F64.round m a| = m → |a| < |F64.round m a|) := by
+  rw [F64.round_eq hm ha hr]; exact round_spec m a hm.pos hm.even
+/-- f128 `Round` -/
+theorem f128_round_spec (m a : Int) (hm : Mult m) (ha : fits128 a) (hr : fits128 (fxRound m a)) :
+    (∃ k : Int, F128.round m a = k * m) ∧ 2 * |a - F128.round m a| ≤ m ∧
+    (2 * |a - F128.round m a| = m → |a| < |F128.round m a|) := by
+  rw [F128.round_eq hm ha hr]; exact round_spec m a hm.pos hm.even
+
+/-- the representability hypothesis of Ceil / Round holds whenever `a ± m` is representable (so it only excludes
+    values within one unit of the ends of the range) -/
+theorem ceil_round_fit_of_margin (m a : Int) (hm : Mult m) :
+    (fits64 (a - m) → fits64 (a + m) → fits64 (fxCeil m a) ∧ fits64 (fxRound m a)) ∧
+    (fits128 (a - m) → fits128 (a + m) → fits128 (fxCeil m a) ∧ fits128 (fxRound m a)) := by
+  have hc := ceil_spec m a hm.pos
+  have hr := (round_spec m a hm.pos hm.even).2.1
+  have hm0 := hm.pos
+  have := abs_le.mp (show |a - fxRound m a| ≤ m by linarith [abs_nonneg (a - fxRound m a)])
+  constructor <;> intro h1 h2
+  · unfold fits64 at *; omega
+  · unfold fits128 at *; omega
+
+/-! ## Abs, Neg, Min, Max, Inc, Dec, comparisons -/
+
+/-- f64 `Abs` (there is no f64 `Neg` method) -/
+theorem f64_abs_spec (a : Int) (h : fits64 (-a)) : F64.abs a = |a| := F64.abs_eq h
+/-- f128 `Abs` -/
+theorem f128_abs_spec (a : Int) (h : fits128 (-a)) : F128.abs a = |a| := F128.abs_eq h
+/-- f128 `Neg` -/
+theorem f128_neg_spec (a : Int) (ha : fits128 a) (h : fits128 (-a)) : F128.neg a = -a := F128.neg_eq h ha
+
+/-- `Min` / `Max` are the minimum / maximum of the raw values (hence of the values, `m > 0`) -/
+theorem min_max_spec (a b : Int) :
+    F64.min a b = min a b ∧ F64.max a b = max a b ∧ F128.min a b = min a b ∧ F128.max a b = max a b :=
+  ⟨F64.min_eq a b, F64.max_eq a b, F128.min_eq a b, F128.max_eq a b⟩
+
+/-- `Inc` / `Dec` add / subtract exactly one (raw `m`) -/
+theorem inc_dec_spec (m a : Int) :
+    (fits64 (a + m) → F64.inc m a = a + m) ∧ (fits64 (a - m) → F64.dec m a = a - m) ∧
+    (fits128 (a + m) → F128.inc m a = a + m) ∧ (fits128 (a - m) → F128.dec m a = a - m) :=
+  ⟨F64.inc_eq, F64.dec_eq, F128.inc_eq, F128.dec_eq⟩
+
+/-- f128 comparisons agree with the order of the raw values (f64 comparisons are Go's built-in operators) -/
+theorem f128_cmp_spec (a b : Int) :
+    (F128.cmp a b = -1 ↔ a < b) ∧ (F128.cmp a b = 0 ↔ a = b) ∧ (F128.cmp a b = 1 ↔ a > b) ∧
+    (F128.lt a b = true ↔ a < b) ∧ (F128.le a b = true ↔ a ≤ b) ∧ (F128.gt a b = true ↔ a > b) ∧
+    (F128.ge a b = true ↔ a ≥ b) ∧ (F128.eq a b = true ↔ a = b) := by
+  unfold F128.cmp F128.lt F128.le F128.gt F128.ge F128.eq
+  refine ⟨?_, ?_, ?_, by simp, by simp, by simp, by simp, by simp⟩ <;> split <;> (try split) <;> omega
+
+/-! ## f64 and f128 agree -/
+
+/-- binary operations: whenever operands, intermediate and result fit 64 bits, both implementations return the
+    exact result — hence the same raw value -/
+theorem f64_f128_agree (m : Int) (hm : Mult m) (op : BinOp) (a b : Int) (h : AllFit64Bin m op a b) :
+    F64.runBin m op a b = F128.runBin m op a b ∧ F64.runBin m op a b = some (specBin m op a b) := by
+  rw [F64.runBin_eq hm op a b h, F128.runBin_eq hm op a b h]; exact ⟨rfl, rfl⟩
+
+/-- unary operations likewise -/
+theorem f64_f128_agree_unary (m : Int) (hm : Mult m) (op : UnOp) (a : Int) (h : AllFit64Un m op a) :
+    F64.runUn m op a = F128.runUn m op a ∧ F64.runUn m op a = specUn m op a := by
+  rw [F64.runUn_eq hm op a h, F128.runUn_eq hm op a h]; exact ⟨rfl, rfl⟩
+
+/-! ## From / As for machine integers -/
+
+/-- f64 `From` of an integer value `v` (any source kind; `v` within int64) is exactly `v` (raw `v·m`) when
+    representable; the product is formed in `int64`, not in the source type -/
+theorem f64_from_int_exact (m v : Int) (hv : fits64 v) (hp : fits64 (v * m)) : F64.fromInt m v = v * m :=
+  F64.fromInt_eq hv hp
+/-- f128 `From` of every value of every integer kind (signed and unsigned, up to `MaxUint64`) is exact — the
+    product always fits 128 bits -/
+theorem f128_from_int_exact (m v : Int) (hm : Mult m) (k : Kind) (hk : k ∈ kinds) (hv : fitsKind k v) :
+    F128.fromInt k m v = v * m := F128.fromInt_eq hk hm hv
+/-- the kinds named by the harness are among `kinds` -/
+theorem kind_names_covered (s : String) (k : Kind) (h : kind? s = some k) : k ∈ kinds := by
+  unfold kind? at h
+  split at h <;> first | (cases h; simp [kinds]) | cases h
+
+/-- f64 `As` to an integer kind returns the integer part (toward zero) whenever it fits the target kind -/
+theorem f64_as_int_exact (m a : Int) (hm : Mult m) (k : Kind) (hk : k ∈ kinds) (ha : fits64 a)
+    (hq : fitsKind k (a.tdiv m)) : F64.asInt k m a = a.tdiv m := F64.asInt_eq hk hm ha hq
+/-- f128 `As` -/
+theorem f128_as_int_exact (m a : Int) (hm : Mult m) (k : Kind) (hk : k ∈ kinds) (ha : fits128 a)
+    (hq : fitsKind k (a.tdiv m)) : F128.asInt k m a = a.tdiv m := F128.asInt_eq hk hm ha hq
+
+/-- `From` then `As` is the identity on integers (round trip) -/
+theorem f64_from_as_roundtrip (m v : Int) (hm : Mult m) (k : Kind) (hk : k ∈ kinds) (hv : fits64 v)
+    (hkv : fitsKind k v) (hp : fits64 (v * m)) : F64.asInt k m (F64.fromInt m v) = v := by
+  have e : (v * m).tdiv m = v := Int.mul_tdiv_cancel _ (by have := hm.pos; omega)
+  rw [F64.fromInt_eq hv hp, F64.asInt_eq hk hm hp (by rw [e]; exact hkv), e]
+
+/-! ## Fraction -/
+
+/-- f64 `Fraction.Normalize`: a zero denominator gives 0/1, a negative one flips both signs -/
+theorem f64_fraction_normalize (m n d : Int) (hm : Mult m) (hn : fits64 (-(n * m))) (hd : fits64 (-(d * m))) :
+    F64.fracNormalize m n d = if d = 0 then (0, m) else if d < 0 then (-n, -d) else (n, d) :=
+  F64.fracNormalize_eq hm hn hd
+/-- f128 `Fraction.Normalize` -/
+theorem f128_fraction_normalize (m n d : Int) (hm : Mult m) (hn : fits128 (-(n * m))) (hd : fits128 (-(d * m))) :
+    F128.fracNormalize m n d = if d = 0 then (0, m) else if d < 0 then (-n, -d) else (n, d) :=
+  F128.fracNormalize_eq hm hn hd
+
+/-- f64 `Fraction.Value` = numerator / denominator truncated toward zero to D places; 0 for a zero denominator -/
+theorem f64_fraction_value (m n d : Int) (hm : Mult m) (hn : fits64 (-(n * m))) (hd : fits64 (-(d * m)))
+    (hp : fits64 (n * m)) (hq : fits64 ((n * m).tdiv d)) :
+    F64.fracValue m n d = some (if d = 0 then 0 else (n * m).tdiv d) := by
+  have hm0 := hm.pos
+  unfold F64.fracValue
+  rw [F64.fracNormalize_eq hm hn hd]
+  by_cases h0 : d = 0
+  · simp only [h0, if_true]
+    rw [F64.div_eq (by omega) (by simp [fits64]) (by simp [fits64])]; simp [fxDiv]
+  · simp only [h0, if_false]
+    by_cases hneg : d < 0
+    · simp only [hneg, if_true]
+      have e : (-n * m).tdiv (-d) = (n * m).tdiv d := by rw [Int.neg_mul, Int.neg_tdiv_neg]
+      rw [F64.div_eq (by omega) (by rw [Int.neg_mul]; exact hn) (by rw [e]; exact hq)]
+      simp only [fxDiv, e]
+    · simp only [hneg, if_false]
+      rw [F64.div_eq h0 hp hq]; rfl
+
+/-! ## MaxSafeMultiply -/
+
+/-- f64 `MaxSafeMultiply` is `Max / mult`, and every value up to it (in magnitude) can be scaled by the multiplier
+    without overflow -/
+theorem f64_maxSafeMultiply_spec (m : Int) (hm : Mult m) :
+    F64.maxSafeMultiply m = F64.maxRaw.tdiv m ∧
+    ∀ a : Int, |a| ≤ F64.maxSafeMultiply m → fits64 (a * m) := by
+  have hm0 := hm.pos
+  have hfit : fits64 F64.maxRaw := by simp [fits64, F64.maxRaw]
+  have e : F64.maxSafeMultiply m = F64.maxRaw.tdiv m := by
+    unfold F64.maxSafeMultiply F64.quo; exact wrap64_of_fits (fits64_tdiv hfit hm0)
+  refine ⟨e, ?_⟩
+  intro a ha
+  rw [e] at ha
+  have hb := (tdiv_mul_between F64.maxRaw m).1 (by simp [F64.maxRaw])
+  have hq := (tdiv_between F64.maxRaw m hm0).1 (by simp [F64.maxRaw])
+  obtain ⟨h1, h2⟩ := abs_le.mp ha
+  have u1 : a * m ≤ F64.maxRaw.tdiv m * m := by nlinarith
+  have u2 : -(F64.maxRaw.tdiv m * m) ≤ a * m := by nlinarith
+  simp only [F64.maxRaw] at *
+  unfold fits64; omega
+
+/-- FINDING (not a clause of C03, recorded because the model reproduces it): `f128.MaxSafeMultiply` is computed with
+    the *fixed-point* `Div`, whose intermediate `Max·mult` wraps, and is raw −1 in every configuration -/
+example : ∀ p ∈ Facts.fixedConfigs, F128.maxSafeMultiply p.2 = some (-1) := by decide
+
+/-! ## restatement on the rational values (`value m r = r / m`, Mathlib's ℚ)
+
+`truncTo m x` = `x` truncated toward zero to D places (as a raw integer), `truncQ` = integer part toward zero,
+`roundQ` = nearest integer with halves away from zero. -/
+
+/-- `Mul` returns the exact rational product truncated toward zero to D places (both implementations) -/
+theorem mul_rational (m a b : Int) (hm : Mult m) :
+    (fits64 (a * b) → F64.mul m a b = truncTo m (value m a * value m b)) ∧
+    (fits128 (a * b) → F128.mul m a b = truncTo m (value m a * value m b)) := by
+  constructor <;> intro hp
+  · rw [F64.mul_eq hm hp]; exact mul_value m a b hm.pos
+  · rw [F128.mul_eq hm hp]; exact mul_value m a b hm.pos
+
+/-- `Div` returns the exact rational quotient truncated toward zero to D places (both implementations) -/
+theorem div_rational (m a b : Int) (hm : Mult m) (hb : b ≠ 0) :
+    (fits64 (a * m) → fits64 ((a * m).tdiv b) → F64.div m a b = some (truncTo m (value m a / value m b))) ∧
+    (fits128 b → fits128 (a * m) → fits128 ((a * m).tdiv b) →
+      F128.div m a b = some (truncTo m (value m a / value m b))) := by
+  constructor
+  · intro hp hq; rw [F64.div_eq hb hp hq, div_value m a b hm.pos hb]
+  · intro hbf hp hq; rw [F128.div_eq hbf hb hp hq, div_value m a b hm.pos hb]
+
+/-- `Mod` returns `x − y·trunc(x/y)` on the rational values (both implementations) -/
+theorem mod_rational (m a b : Int) (hm : Mult m) (hb : b ≠ 0) :
+    (fits64 a → fits64 (a * m) → fits64 ((a * m).tdiv b) →
+      ∃ r, F64.mod m a b = some r ∧ value m r = value m a - value m b * truncQ (value m a / value m b)) ∧
+    (fits128 a → fits128 b → fits128 (a * m) → fits128 ((a * m).tdiv b) →
+      ∃ r, F128.mod m a b = some r ∧ value m r = value m a - value m b * truncQ (value m a / value m b)) := by
+  constructor
+  · intro ha hp hq; exact ⟨_, F64.mod_eq hm ha hb hp hq, mod_value m a b hm.pos hb⟩
+  · intro ha hbf hp hq; exact ⟨_, F128.mod_eq hm ha hbf hb hp hq, mod_value m a b hm.pos hb⟩
+
+/-- `Trunc`, `Ceil`, `Round` return the whole number toward zero, toward +∞, and nearest with halves away from
+    zero of the rational value (f64) -/
+theorem f64_rounding_rational (m a : Int) (hm : Mult m) (ha : fits64 a) :
+    value m (F64.trunc m a) = truncQ (value m a) ∧
+    (fits64 (fxCeil m a) → value m (F64.ceil m a) = ⌈value m a⌉) ∧
+    (fits64 (fxRound m a) → value m (F64.round m a) = roundQ (value m a)) := by
+  refine ⟨?_, ?_, ?_⟩
+  · rw [F64.trunc_eq hm ha]; exact trunc_value m a hm.pos
+  · intro hr; rw [F64.ceil_eq hm ha hr]; exact ceil_value m a hm.pos
+  · intro hr; rw [F64.round_eq hm ha hr]; exact round_value m a hm.pos hm.even
+
+/-- the same for f128 -/
+theorem f128_rounding_rational (m a : Int) (hm : Mult m) (ha : fits128 a) :
+    value m (F128.trunc m a) = truncQ (value m a) ∧
+    (fits128 (fxCeil m a) → value m (F128.ceil m a) = ⌈value m a⌉) ∧
+    (fits128 (fxRound m a) → value m (F128.round m a) = roundQ (value m a)) := by
+  refine ⟨?_, ?_, ?_⟩
+  · rw [F128.trunc_eq hm ha]; exact trunc_value m a hm.pos
+  · intro hr; rw [F128.ceil_eq hm ha hr]; exact ceil_value m a hm.pos
+  · intro hr; rw [F128.round_eq hm ha hr]; exact round_value m a hm.pos hm.even
+
+/-- comparisons of raw integers are comparisons of the rational values -/
+theorem order_rational (m a b : Int) (hm : Mult m) :
+    (value m a < value m b ↔ a < b) ∧ (value m a = value m b ↔ a = b) :=
+  ⟨value_lt_iff m a b hm.pos, value_eq_iff m a b hm.pos⟩
+
+/-- integer `From` is exact on the values: the value of `From(v)` is `v` -/
+theorem from_int_rational (m v : Int) (hm : Mult m) :
+    (fits64 v → fits64 (v * m) → value m (F64.fromInt m v) = v) ∧
+    (∀ k ∈ kinds, fitsKind k v → value m (F128.fromInt k m v) = v) := by
+  have hmq : (m : ℚ) ≠ 0 := by exact_mod_cast (ne_of_gt hm.pos)
+  constructor
+  · intro hv hp; rw [F64.fromInt_eq hv hp]; unfold value; push_cast; field_simp
+  · intro k hk hv; rw [F128.fromInt_eq hk hm hv]; unfold value; push_cast; field_simp
+
+/-! ## the hypotheses are satisfiable (non-vacuity) -/
+
+example : Mult 100 := ⟨(2, 100), by decide, rfl⟩
+example : AllFit64Bin 100 .mod (-700) 300 := by simp [AllFit64Bin, fits64]
+example : F64.round 100 (-150) = -200 ∧ F128.round 100 (-150) = -200 ∧ F64.round 100 (-50) = -100 := by decide
+example : F64.mod 100 (-700) 300 = some (-100) ∧ F128.mod 100 (-700) 300 = some (-100) := by decide
+
 end C03
